@@ -52,6 +52,8 @@ type expect struct {
 
 type tcase struct {
 	Box  string  `json:"box"`
+	Cs   string  `json:"cs,omitempty"`   // CHARSET argument ("" = none)
+	OrNo bool    `json:"orno,omitempty"` // the server may also refuse the charset with a tagged NO
 	Keys []*node `json:"keys"`
 	Exp  expect  `json:"exp"`
 }
@@ -261,6 +263,14 @@ func (r *renderer) key(n *node) (string, error) {
 	return "", fmt.Errorf("unknown key kind %q", n.K)
 }
 
+func (r *renderer) command(c *tcase) (string, error) {
+	s, err := r.keys(c.Keys)
+	if c.Cs != "" {
+		s = r.word("CHARSET") + " " + c.Cs + " " + s
+	}
+	return s, err
+}
+
 func (r *renderer) keys(ks []*node) (string, error) {
 	var parts []string
 	for _, k := range ks {
@@ -270,17 +280,19 @@ func (r *renderer) keys(ks []*node) (string, error) {
 		}
 		parts = append(parts, s)
 	}
-	s := strings.Join(parts, " ")
-	if r.rnd.Intn(12) == 0 {
-		s = r.word("CHARSET") + " UTF-8 " + s
-	}
-	return s, nil
+	return strings.Join(parts, " "), nil
 }
 
-// canonical text of a case (fixed rendering), used as identity
+// canonical text of keys / of a case (fixed rendering), used as identity
 func canon(ks []*node) string {
 	r := &renderer{rnd: rand.New(zeroSource{})}
 	s, _ := r.keys(ks)
+	return s
+}
+
+func canonCase(c *tcase) string {
+	r := &renderer{rnd: rand.New(zeroSource{})}
+	s, _ := r.command(c)
 	return s
 }
 
@@ -289,14 +301,17 @@ type zeroSource struct{}
 func (zeroSource) Int63() int64 { return 0 }
 func (zeroSource) Seed(int64)   {}
 
-func topKind(ks []*node) string {
-	if len(ks) == 1 {
-		return ks[0].K
+func topKind(c *tcase) string {
+	if c.Cs != "" {
+		return "CHARSET"
+	}
+	if len(c.Keys) == 1 {
+		return c.Keys[0].K
 	}
 	return "JUXT"
 }
 
-func isLeafCase(ks []*node) bool { return len(ks) == 1 && len(ks[0].C) == 0 }
+func isLeafCase(c *tcase) bool { return c.Cs == "" && len(c.Keys) == 1 && len(c.Keys[0].C) == 0 }
 
 func leaves(n *node, out *[]*node) {
 	if len(n.C) == 0 {
@@ -310,12 +325,12 @@ func leaves(n *node, out *[]*node) {
 
 // ---- one box on the real server ------------------------------------------------
 
+// shared is what the workers of a run have in common.
 type shared struct {
 	r       *ev.Run
-	srv     *fixture.ChildServer
 	mu      sync.Mutex
 	counts  map[string]int64
-	crashed bool
+	crashes int
 	nameSeq int
 }
 
@@ -325,8 +340,11 @@ func (s *shared) count(k string, n int64) {
 	s.mu.Unlock()
 }
 
+// worker executes cases of one box on a server process of its own: one command is in flight per
+// server, so a dead process is the doing of exactly that command, and the worker can start over alone.
 type worker struct {
 	sh   *shared
+	srv  *fixture.ChildServer
 	def  *boxdef
 	a, b *wire.Client // a holds the view; b is the other session
 	name string
@@ -369,10 +387,18 @@ func (w *worker) build() error {
 	if w.b != nil {
 		w.b.Close()
 	}
-	if w.a, err = dial(w.sh.srv.Addr); err != nil {
+	if w.srv == nil || !w.srv.Alive() {
+		if w.srv != nil {
+			w.srv.Stop()
+		}
+		if w.srv, err = fixture.StartChild(fixture.ChildConfig{}); err != nil {
+			return fmt.Errorf("server: %w", err)
+		}
+	}
+	if w.a, err = dial(w.srv.Addr); err != nil {
 		return err
 	}
-	if w.b, err = dial(w.sh.srv.Addr); err != nil {
+	if w.b, err = dial(w.srv.Addr); err != nil {
 		return err
 	}
 	w.sh.mu.Lock()
@@ -632,9 +658,9 @@ func asSet(a []int) []int {
 }
 
 // judge compares one command's outcome with the expectation; it returns the kinds of difference.
-func judge(o outcome, res string, want []int) []string {
-	if o.lost {
-		return []string{"connection-lost"}
+func judge(o outcome, res string, want []int, orNo bool) []string {
+	if orNo && o.status == "NO" {
+		return nil // the charset is not supported and was refused as RFC 3501 demands
 	}
 	if res == "BAD" {
 		if o.status != "BAD" {
@@ -659,7 +685,7 @@ func judge(o outcome, res string, want []int) []string {
 }
 
 func (w *worker) violate(c *tcase, cmd, kind, text, detail string) {
-	key := fmt.Sprintf("%s/%s/%s", cmd, topKind(c.Keys), kind)
+	key := fmt.Sprintf("%s/%s/%s", cmd, topKind(c), kind)
 	w.sh.r.Add("failing_executions", 1)
 	// a systematic failure (say, UID SEARCH answering sequence numbers) fails nearly every case: the
 	// first 60 signatures are written out, the rest is only counted
@@ -696,7 +722,7 @@ func (w *worker) describeBox() string {
 
 // via names the leaf kinds of the case that already failed as single keys in this box.
 func (w *worker) via(c *tcase) string {
-	if isLeafCase(c.Keys) {
+	if isLeafCase(c) {
 		return ""
 	}
 	var ls []*node
@@ -719,7 +745,7 @@ func (w *worker) via(c *tcase) string {
 func (w *worker) runCase(c *tcase, text string) bool {
 	n := len(w.def.Msgs)
 	nontrivial := c.Exp.Res == "BAD" || (len(c.Exp.Seqs) > 0 && len(c.Exp.Seqs) < n)
-	cn := canon(c.Keys)
+	cn := canonCase(c)
 	failed := false
 	var outs [2]outcome
 	for i, cmd := range []string{"SEARCH", "UIDSEARCH"} {
@@ -731,19 +757,25 @@ func (w *worker) runCase(c *tcase, text string) bool {
 		}
 		o := w.search(cmd2text(cmd), text)
 		outs[i] = o
-		for _, kind := range judge(o, c.Exp.Res, want) {
+		if o.lost {
+			// no tagged reply: the whole process died, or only this connection
+			if w.srv.WaitExit(500 * time.Millisecond) {
+				w.sh.mu.Lock()
+				w.sh.crashes++
+				w.sh.mu.Unlock()
+				w.violate(c, cmd, "server-crash", text, "the server process died while handling the command\n"+w.srv.CrashOutput())
+			} else {
+				w.violate(c, cmd, "connection-lost", text, "the connection was closed or timed out instead of a tagged reply; the server process is still running")
+			}
+			return false
+		}
+		for _, kind := range judge(o, c.Exp.Res, want, c.OrNo) {
 			failed = true
 			detail := fmt.Sprintf("answered %s %s with %v", o.status, o.text, o.nums)
-			if kind == "connection-lost" {
-				detail = "the connection was closed or timed out instead of a tagged reply"
-			}
 			if kind == "wrong-messages" {
 				kind += w.via(c)
 			}
 			w.violate(c, cmd, kind, text, detail)
-		}
-		if o.lost {
-			return false
 		}
 	}
 	// UID SEARCH must name the messages SEARCH names (whatever the spec expects)
@@ -762,23 +794,15 @@ func (w *worker) runCase(c *tcase, text string) bool {
 				fmt.Sprintf("SEARCH answered %v (UIDs %v) but UID SEARCH answered %v", outs[0].nums, mapped, outs[1].nums))
 		}
 	}
-	if failed && isLeafCase(c.Keys) && !w.readOnlyFailed {
+	if failed && isLeafCase(c) && !w.readOnlyFailed {
 		w.failedLeaf[cn] = true
 	}
 	return true
 }
 
-// runBox executes all cases of one box.
+// runBox executes the cases on a view of the box.
 func (w *worker) runBox(cases []*tcase, texts map[*tcase]string) {
 	r := w.sh.r
-	if err := w.build(); err != nil {
-		if w.sh.srv.WaitExit(300 * time.Millisecond) {
-			w.crash(nil, "building box "+w.def.Def)
-			return
-		}
-		r.Machinery("box %s cannot be built: %v", w.def.Def, err)
-		return
-	}
 	defer func() {
 		if w.a != nil {
 			w.a.Close()
@@ -786,13 +810,20 @@ func (w *worker) runBox(cases []*tcase, texts map[*tcase]string) {
 		if w.b != nil {
 			w.b.Close()
 		}
+		if w.srv != nil {
+			w.srv.Stop()
+		}
 	}()
+	if err := w.build(); err != nil {
+		r.Machinery("box %s cannot be built: %v\n%s", w.def.Def, err, w.crashOutput())
+		return
+	}
 	losses := 0
 	for _, c := range cases {
 		text := texts[c]
 		if text == "" {
 			var err error
-			if text, err = w.rnd.keys(c.Keys); err != nil {
+			if text, err = w.rnd.command(c); err != nil {
 				r.Machinery("render: %v", err)
 				return
 			}
@@ -801,40 +832,25 @@ func (w *worker) runBox(cases []*tcase, texts map[*tcase]string) {
 			w.sh.count("cases", 1)
 			continue
 		}
-		// the connection is gone (already reported); did the server die?
-		if w.sh.srv.WaitExit(300 * time.Millisecond) {
-			w.crash(c, cmd2text("SEARCH")+" "+text)
-			return
-		}
+		// the view is gone (reported by runCase): a new server if need be, a new view, and on with the next case
+		w.sh.count("cases", 1)
 		losses++
-		if losses > 5 {
-			r.Machinery("box %s: more than 5 lost connections, the rest of the box was not executed", w.def.Def)
+		if losses > 20 {
+			r.Machinery("box %s: more than 20 lost connections / dead servers in one worker, the rest of its cases was not executed", w.def.Def)
 			return
 		}
 		if err := w.build(); err != nil {
-			r.Machinery("box %s cannot be rebuilt after a lost connection: %v", w.def.Def, err)
+			r.Machinery("box %s cannot be rebuilt after a lost connection: %v\n%s", w.def.Def, err, w.crashOutput())
 			return
 		}
 	}
-	// leave no garbage for the other boxes (the view is not needed any more)
-	w.a.Cmd("UNSELECT")
-	w.a.Cmd("DELETE " + w.name)
 }
 
-func (w *worker) crash(c *tcase, what string) {
-	w.sh.mu.Lock()
-	first := !w.sh.crashed
-	w.sh.crashed = true
-	w.sh.mu.Unlock()
-	if !first {
-		return
+func (w *worker) crashOutput() string {
+	if w.srv != nil && !w.srv.Alive() {
+		return w.srv.CrashOutput()
 	}
-	kind := "build"
-	if c != nil {
-		kind = topKind(c.Keys)
-	}
-	w.sh.r.Violate("server-crash/"+kind, "the server process died while handling "+what+"\n"+w.sh.srv.CrashOutput(),
-		map[string]interface{}{"box": w.def, "case": c, "text": what})
+	return ""
 }
 
 // ---- TLC -----------------------------------------------------------------------
@@ -889,10 +905,10 @@ func runTLC(cfgText, box string) *tlcOut {
 func sortCases(cs []*tcase) {
 	keys := make(map[*tcase]string, len(cs))
 	for _, c := range cs {
-		keys[c] = canon(c.Keys)
+		keys[c] = canonCase(c)
 	}
 	sort.Slice(cs, func(i, j int) bool {
-		li, lj := isLeafCase(cs[i].Keys), isLeafCase(cs[j].Keys)
+		li, lj := isLeafCase(cs[i]), isLeafCase(cs[j])
 		if li != lj {
 			return li
 		}
@@ -904,13 +920,7 @@ func run(r *ev.Run, tier, replay string) {
 	seed := ev.Seed()
 
 	if replay != "" {
-		srv, err := fixture.StartChild(fixture.ChildConfig{})
-		if err != nil {
-			r.Machinery("server: %v", err)
-			return
-		}
-		sh := &shared{r: r, srv: srv, counts: map[string]int64{}}
-		defer func() { sh.srv.Stop() }()
+		sh := &shared{r: r, counts: map[string]int64{}}
 		b, err := os.ReadFile(replay)
 		if err != nil {
 			r.Machinery("replay: %v", err)
@@ -961,7 +971,7 @@ func run(r *ev.Run, tier, replay string) {
 	var samples []interface{}
 	perBox := map[string]int{}
 	counts := map[string]int64{}
-	crashed := false
+	crashes := 0
 	for bi, box := range boxes {
 		wg.Add(1)
 		go func(bi int, box string) {
@@ -979,21 +989,13 @@ func run(r *ev.Run, tier, replay string) {
 				return
 			}
 			sortCases(out.cases)
-			// every box has a server process of its own: the boxes run truly in parallel and a crash
-			// is attributed to the box that caused it
-			srv, err := fixture.StartChild(fixture.ChildConfig{})
-			if err != nil {
-				r.Machinery("server for box %s: %v", box, err)
-				return
-			}
-			sh := &shared{r: r, srv: srv, counts: map[string]int64{}}
+			sh := &shared{r: r, counts: map[string]int64{}}
 			defer func() {
-				sh.srv.Stop()
 				mu.Lock()
 				for k, v := range sh.counts {
 					counts[k] += v
 				}
-				crashed = crashed || sh.crashed
+				crashes += sh.crashes
 				mu.Unlock()
 			}()
 			// a few written-out cases per box
@@ -1001,12 +1003,12 @@ func run(r *ev.Run, tier, replay string) {
 			var smp []interface{}
 			for i := 0; i < 2 && len(out.cases) > 0; i++ {
 				c := out.cases[pick.Intn(len(out.cases))]
-				smp = append(smp, map[string]interface{}{"box": box, "keys": canon(c.Keys), "expected": c.Exp})
+				smp = append(smp, map[string]interface{}{"box": box, "command": "SEARCH " + canonCase(c), "expected": c.Exp, "or_tagged_no": c.OrNo})
 			}
 			// single leaf keys first (what fails there is named in the signature of composite failures),
 			// then the composite cases, split over several views of the same content when there are many
 			nLeaf := 0
-			for nLeaf < len(out.cases) && isLeafCase(out.cases[nLeaf].Keys) {
+			for nLeaf < len(out.cases) && isLeafCase(out.cases[nLeaf]) {
 				nLeaf++
 			}
 			failed := map[string]bool{}
@@ -1047,15 +1049,17 @@ func run(r *ev.Run, tier, replay string) {
 	r.Set("transitions", gen)
 	r.Set("tlc_wall_s", tlcWall)
 	r.Set("cases_per_box", perBox)
+	r.Set("server_crashes", crashes)
 	r.Set("traces_validated_against_impl", counts["cases"])
 	r.Set("executions_per_command", map[string]int64{"SEARCH": counts["SEARCH"], "UID SEARCH": counts["UIDSEARCH"]})
-	r.Set("exhaustive", counts["cases"] == total && !crashed)
+	r.Set("exhaustive", counts["cases"] == total && crashes == 0)
 	r.Set("rule", "one case = (mailbox content box, juxtaposed key trees) enumerated exhaustively by TLC from GluonSearch (all 38 key kinds; depth <= 2 quick, <= 3 thorough) with the expected ascending sequence numbers and UIDs; every case is executed with SEARCH and UID SEARCH in the session holding the view, the result line compared as a sequence (order and duplicates matter) and UID SEARCH compared with the UIDs of SEARCH's messages; non-trivial = expected BAD or a proper non-empty subset of the view; distinct = distinct (command, box, key tree)")
 	r.Assumptions = []string{
 		"the internal date of a message is the UTC calendar date of what FETCH INTERNALDATE reports (checked after building every box); the date of the Date: header is the one written in it",
 		"gluon stores an extra first header line X-Pm-Gluon-Id (53 bytes) that the session sees in BODY[] and RFC822.SIZE; the model's sizes include it (checked with FETCH RFC822.SIZE) and no TEXT pattern of the model occurs in it or in the Date: header value",
 		"stale view: the other session's UID EXPUNGE is complete (checked with its own UID SEARCH ALL) before the viewing session searches; the viewing session issues nothing but SEARCH / UID SEARCH afterwards",
-		"free choices of the key syntax (case of key words, atom or quoted string, quoted dates, one-digit days, optional CHARSET UTF-8) are taken with VERIF_SEED; literals are not used",
+		"free choices of the key syntax (case of key words, atom or quoted string, quoted dates, one-digit days) are taken with VERIF_SEED; literals are not used",
+		"CHARSET: all patterns are ASCII; UTF-8 and US-ASCII must be accepted with the unchanged result, for ISO-8859-1, ISO-2022-CN and an unregistered name either the unchanged result or a tagged NO is right",
 		"UID n:* with n above the highest UID is not part of the enumerated keys (not judged by C16 either)",
 	}
 }
